@@ -148,6 +148,12 @@ def grid(sizes):
     return [tuple(l) for l in itertools.product(*[range(1, n + 1) for n in sizes])]
 
 
+def tname(c):
+    """name of the internal dimension: one character, several characters, or the concatenation of the names
+    of two parameter dimensions ('ab' is ONE dimension, not the dimensions a and b)"""
+    return c.get("tname", "t")
+
+
 def dims_of(c):
     """names of the model's dimensions 1..ND, in the dataset's order"""
     return list(c.get("dimnames") or DIMS[:len(c["sizes"])])
@@ -186,7 +192,7 @@ def build_ds(c):
     layout = c.get("layout", "natural")
     coords = {dims[d]: np.array([coord_value(variant, d, i, sizes[d]) for i in range(1, sizes[d] + 1)]) for d in range(nd)}
     if intvars:
-        coords["t"] = np.array(TCOORD)
+        coords[tname(c)] = np.array(TCOORD)
     arrays = {}
     s = 0
     for v in range(1, nv + 1):
@@ -196,7 +202,7 @@ def build_ds(c):
             for t in range(nt):
                 arr[tuple(i - 1 for i in loc) + (t,)] = cell_value(c["cells"][r][s + t], r, s + t)
         s += nt
-        vdims = list(dims) + (["t"] if v in intvars else [])
+        vdims = list(dims) + ([tname(c)] if v in intvars else [])
         if v not in intvars:
             arr = arr[..., 0]
         vdt = (c.get("vdtypes") or {}).get(str(v))
@@ -226,7 +232,7 @@ def build_ds(c):
                                    % (name, ds[name].dims, tuple(ds.dims)))
     else:
         ds = xr.Dataset(coords=coords, data_vars=arrays)
-    if [d for d in ds.dims if d != "t"] != dims:
+    if [d for d in ds.dims if d != tname(c)] != dims:
         raise RuntimeError("harness: dataset dimension order %r is not the model's %r" % (list(ds.dims), dims))
     return ds
 
@@ -269,7 +275,9 @@ def project_setting(c, dct):
 def ignore_arg(c):
     if not c["intvars"]:
         return None
-    return ["t", {"t"}][c["idx"] % 2]          # the documented spellings: a name or a set of names
+    t = tname(c)
+    # a bare name (of one or of several characters), or a set / list / tuple of names
+    return [t, {t}, [t], (t,)][c["idx"] % 4]
 
 
 def sig_order(c):
@@ -309,8 +317,8 @@ def make_harvester(xyz, c, ds, pattern=False):
     src = "lambda %s: _f(%s)" % (", ".join(sig), ", ".join("%s=%s" % (d, d) for d in dims))
     f = eval(src, {"_f": fn})
     names = VARS[:nv] if nv > 1 else VARS[0]
-    var_dims = {VARS[v - 1]: ["t"] for v in intvars} or None
-    var_coords = {"t": TCOORD} if intvars else None
+    var_dims = {VARS[v - 1]: [tname(c)] for v in intvars} or None
+    var_coords = {tname(c): TCOORD} if intvars else None
     r = xyz.Runner(f, var_names=names, var_dims=var_dims, var_coords=var_coords)
     return xyz.Harvester(r, data_name=None, full_ds=ds)
 
@@ -342,7 +350,7 @@ def build_via_expand(xyz, c):
     for _ in range(2):
         cc = dict(c, dimnames=list(guess), layout="natural")
         ds = _expand_once(xyz, cc)
-        actual = [d for d in ds.dims if d != "t"]
+        actual = [d for d in ds.dims if d != tname(cc)]
         if actual == guess:
             for d, name in enumerate(guess):
                 want = [coord_value(cc["variant"], d, i, cc["sizes"][d]) for i in range(1, cc["sizes"][d] + 1)]
@@ -547,7 +555,8 @@ def run(rep):
         "internal dimension of size 2; the 16-location shape is model-checked only",
         "coordinate flavours (int unsorted / float / str / mixed), the stored dimension order of the variables (natural / "
         "every variable permuted against the dataset's order / variables 2.. reversed), growth of the three-dimensional "
-        "patterns by a real Harvester (expand_dims then harvest_cases, ascending coordinates), the order in which the "
+        "patterns by a real Harvester (expand_dims then harvest_cases, ascending coordinates), the name of the internal dimension ('t' / 'time' / 'ab') and "
+        "the spelling of ignore_dims (bare string / set / list / tuple), the order in which the "
         "Runner's function lists its parameters (every permutation) and tuple vs dict cases in the harvest loop, the dtype of variables that "
         "hold data everywhere (float / int / bool / str), Dataset vs DataArray and the "
         "spelling of ignore_dims are rotated over the emitted cases by the harness, not enumerated by TLC",
@@ -608,6 +617,7 @@ def run(rep):
             cc = dict(c)
             cc["variant"] = fl
             cc["layout"] = ["natural", "permuted", "transposed"][n % 3]
+            cc["tname"] = ["t", "time", "ab"][(n // 4) % 3]
             cc["sigperm"] = n // 2                   # the Runner's signature: every permutation of the dimensions in turn
             cc["casestyle"] = "dict" if n % 4 == 1 else "tuple"
             # variables all of whose cells hold data become int / bool / str variables (at least one float variable
